@@ -913,6 +913,12 @@ def r03_3_awaitify(ctx) -> None:
     # --- awaitify: coroutine functions pass, everything else is wrapped for run-time detection
     w = ctx.unit("_core.awaitify")
     p = w.param_names()[0]
+    # the table below is about the function as written: a decorator around it (a cache keyed on the callable, say) would reject
+    # unhashable callable objects and hand one wrapper - with its remembered sync / async decision - to every use
+    deco = [norm(d) for d in getattr(w.node, "decorator_list", []) if norm(d).split(".")[-1].split("(")[0] not in ("overload",)]
+    ctx.check(not deco, "R03.3", w, "awaitify", "awaitify is used as written, no decorator stands between the tools and the adapter "
+              "(a cache keyed on the callable rejects unhashable callable objects and shares one wrapper between uses)",
+              witness=str(deco))
     for is_coro in (True, False):
         ctx.count("adapter_cells")
         outs = _adapter_run(ctx, w, {"iscoroutinefunction": is_coro}, {p: "FUNC"}, SKIP)
